@@ -5,6 +5,7 @@ import vlib, storelib
 KF = {
     "older_secondary_copy_served_after_newer_set": "D14c-secondary-copy-not-invalidated-by-set",
     "entry_evicted_without_identical_copy_in_secondary": "D14b-updated-promoted-entry-not-written-back",
+    "slot_removed_by_worker_after_entry_was_updated_since_its_copy": "D14d-worker-removes-entry-updated-since-copy",
 }
 
 
@@ -20,7 +21,7 @@ def run(pid, tier, work, assumptions):
         return 1 if bad else 0
     v = vlib.Verdict(pid, work)
     mc = storelib.tlc_mc(work, "HybridMC.cfg", module="Hybrid", tag="hmc", timeout=2400)
-    out = storelib.run_driver(work, "TestVerif_Hybrid", "hybrid", env={"VERIF_N": 300 if thorough else 40}, timeout=2400)
+    out = storelib.run_driver(work, "TestVerif_Hybrid", "hybrid", env={"VERIF_N": 1500 if thorough else 150}, timeout=2400)
     tf = os.path.join(out, "hybrid.ndjson")
     res = storelib.validate(work, tf, "hybrid", module="HybridTrace", cfg="HybridTrace.cfg", timeout=3000)
     others = {}
